@@ -1404,6 +1404,59 @@ def desugar(rec, prog, stats):
             stats.setdefault(rec["path"], []).append("desugar:" + c.rsplit("::", 1)[1])
             changed = True
             continue
+        if c == "core::iter::Iterator::find_map" and len(t["args"]) == 2 and not t["dest"]["proj"] and t.get("cargs") \
+                and all(a["k"] in ("move", "copy") and not a["place"]["proj"] for a in t["args"]) \
+                and rec["locals"][t["args"][1]["place"]["local"]].get("k") == "closure" and _closure_arg_ty(prog, rec, t["args"][1]) is not None \
+                and rec["locals"][t["args"][0]["place"]["local"]].get("k") == "ref":
+            # it.find_map(f)  ->  loop { match it.next() { None => break None, Some(x) => if let Some(r) = f(x) { break Some(r) } } }
+            it_op, f_op = t["args"]
+            itl = it_op["place"]["local"]
+            ity = rec["locals"][itl]["to"]
+            item_ty = _closure_arg_ty(prog, rec, f_op)
+            fl = f_op["place"]["local"]
+            fty = rec["locals"][fl]
+            dty = rec["locals"][t["dest"]["local"]]
+            if dty.get("k") == "adt" and dty.get("path") == "core::option::Option":
+                nextfn = None
+                if ity.get("k") == "adt":
+                    nextfn = ITER_NEXT_OF.get(ity["path"]) or {"core::iter::Enumerate": "<core::iter::Enumerate<I> as core::iter::Iterator>::next"}.get(ity["path"])
+                line = t.get("line")
+                opt_ty = {"k": "adt", "path": "core::option::Option", "args": [item_ty], "s": "core::option::Option<T>"}
+                isz = {"k": "int", "bits": 64, "name": "isize"}
+                n = len(rec["locals"])
+                rec["locals"].extend([{"k": "ref", "mut": True, "to": ity}, opt_ty, isz, item_ty, {"k": "tuple", "elems": [item_ty]}, {"k": "ref", "mut": True, "to": fty}, dty, isz])
+                r, nx, d, item, tup, cr, rr, d2 = range(n, n + 8)
+                nb = len(rec["blocks"])
+                H, S, N, B, C, E, U = nb, nb + 1, nb + 2, nb + 3, nb + 4, nb + 5, nb + 6
+                it_place = {"local": itl, "proj": [{"k": "deref"}]}
+                dfn = _single_def(rec, itl)
+                if dfn is not None and dfn[0] == "stmt" and dfn[3]["rv"]["k"] == "ref" and not dfn[3]["rv"]["place"]["proj"]:
+                    it_place = {"local": dfn[3]["rv"]["place"]["local"], "proj": []}
+                rec["blocks"].append({"stmts": [{"k": "assign", "place": {"local": r, "proj": []}, "rv": {"k": "ref", "mut": True, "place": it_place}, "line": line}],
+                                      "term": {"k": "call", "callee": "core::iter::Iterator::next", "resolved": nextfn, "cargs": [ity], "rargs": ity.get("args") or [],
+                                               "args": [{"k": "move", "place": {"local": r, "proj": []}}], "dest": {"local": nx, "proj": []}, "target": S, "line": line}})
+                rec["blocks"].append({"stmts": [{"k": "assign", "place": {"local": d, "proj": []}, "rv": {"k": "discr", "place": {"local": nx, "proj": []}}, "line": line}],
+                                      "term": {"k": "switch", "discr": {"k": "move", "place": {"local": d, "proj": []}}, "dty": isz, "arms": [[0, N], [1, B]], "otherwise": U, "line": line}})
+                rec["blocks"].append({"stmts": [{"k": "assign", "place": copy.deepcopy(t["dest"]),
+                                                 "rv": {"k": "aggregate", "agg": "adt", "path": "core::option::Option", "variant": 0, "vname": "None", "args": dty.get("args", []),
+                                                        "is_enum": True, "ops": []}, "line": line}], "term": {"k": "goto", "target": t["target"]}})
+                rec["blocks"].append({"stmts": [
+                    {"k": "assign", "place": {"local": item, "proj": []},
+                     "rv": {"k": "use", "op": {"k": "move", "place": {"local": nx, "proj": [{"k": "downcast", "variant": 1, "name": "Some"}, {"k": "field", "i": 0, "ty": item_ty}]}}}, "line": line},
+                    {"k": "assign", "place": {"local": tup, "proj": []}, "rv": {"k": "aggregate", "agg": "tuple", "ops": [{"k": "move", "place": {"local": item, "proj": []}}]}, "line": line},
+                    {"k": "assign", "place": {"local": cr, "proj": []}, "rv": {"k": "ref", "mut": True, "place": {"local": fl, "proj": []}}, "line": line}],
+                    "term": {"k": "call", "callee": "core::ops::FnMut::call_mut", "resolved": None, "cargs": [fty, {"k": "tuple", "elems": [item_ty]}], "rargs": [],
+                             "args": [{"k": "move", "place": {"local": cr, "proj": []}}, {"k": "move", "place": {"local": tup, "proj": []}}], "dest": {"local": rr, "proj": []},
+                             "target": C, "line": line}})
+                rec["blocks"].append({"stmts": [{"k": "assign", "place": {"local": d2, "proj": []}, "rv": {"k": "discr", "place": {"local": rr, "proj": []}}, "line": line}],
+                                      "term": {"k": "switch", "discr": {"k": "move", "place": {"local": d2, "proj": []}}, "dty": isz, "arms": [[0, H], [1, E]], "otherwise": U, "line": line}})
+                rec["blocks"].append({"stmts": [{"k": "assign", "place": copy.deepcopy(t["dest"]), "rv": {"k": "use", "op": {"k": "move", "place": {"local": rr, "proj": []}}}, "line": line}],
+                                      "term": {"k": "goto", "target": t["target"]}})
+                rec["blocks"].append({"stmts": [], "term": {"k": "unreachable"}})
+                blk["term"] = {"k": "goto", "target": H}
+                stats.setdefault(rec["path"], []).append("desugar:find_map")
+                changed = True
+                continue
         if c in ("core::bool::<impl bool>::then", "core::bool::<impl bool>::then_some") and len(t["args"]) == 2 and not t["dest"]["proj"]:
             # cond.then(f) / cond.then_some(v)  ->  if cond { Some(f()) } else { None }
             cnd, f_ = t["args"]
